@@ -155,3 +155,77 @@ func ZZ_C16_reads() {
 	_ = txn.Rollback()
 	s.wg.Wait()
 }
+
+// ZZ_C16_flush_error: one batch of a flush is refused by the store after another
+// batch of the same flush was applied. The error must surface (the transaction
+// cannot commit), and Rollback must still drive every flushed lock — including
+// those of the partially applied flush — to the rollback outcome.
+func ZZ_C16_flush_error() {
+	s, cl := zzNewStore([][]byte{[]byte("m")}, 0)
+	defer s.close()
+	txn := zzBeginPipelined(s)
+	start := txn.StartTS()
+	ctx := context.Background()
+	rounds := 2
+	cl.refuseFlushIn = uint64(10 + zzChoice("refuse.region", 2))
+	cl.refuseFlushGen = uint64(1 + zzChoice("refuse.generation", rounds))
+	var written [][]byte
+	last := map[string][]byte{}
+	sawError := false
+	for r := 0; r < rounds; r++ {
+		n := 0
+		for _, k := range zzC16Pool {
+			if zzChoice("w."+string(k), 2) == 1 {
+				v := append(zzBytesN("v", 1), 'v')
+				if txn.Set(k, v) != nil {
+					sawError = true
+					continue
+				}
+				written = append(written, k)
+				last[string(k)] = v
+				n++
+			}
+		}
+		if n > 0 {
+			if _, err := txn.GetMemBuffer().Flush(true); err != nil {
+				sawError = true
+			}
+			if err := txn.GetMemBuffer().FlushWait(); err != nil {
+				sawError = true
+			}
+		}
+	}
+	zzAssume(len(written) > 0)
+	commit := zzChoice("commit", 2) == 1
+	var err error
+	if commit {
+		err = txn.Commit(ctx)
+	} else {
+		err = txn.Rollback()
+	}
+	s.wg.Wait()
+	zzAssert(!cl.unmodelled, "c16.flusherr.only-modelled-commands")
+	if cl.flushRefused {
+		// a refused flush is reported to the caller ...
+		zzAssert(sawError || (commit && err != nil), "c16.flusherr.error-surfaces")
+	}
+	if commit && err == nil {
+		// ... and a transaction that nevertheless commits has lost none of its writes
+		for _, k := range written {
+			w := cl.key(k).record(start)
+			zzAssert(w != nil && w.commitTS != 0, "c16.flusherr.commit-loses-no-write")
+			if w != nil {
+				zzAssert(bytes.Equal(w.value, last[string(k)]), "c16.flusherr.commit-keeps-the-latest-value")
+			}
+		}
+	} else {
+		for _, k := range zzC16Pool {
+			zzAssert(!cl.committed(k, start), "c16.flusherr.failed-txn-commits-nothing")
+		}
+	}
+	if !commit || err != nil {
+		for _, k := range zzC16Pool {
+			zzAssert(!cl.lockedBy(k, start), "c16.flusherr.no-flushed-lock-left")
+		}
+	}
+}
